@@ -78,7 +78,13 @@ def cap_value(case):
         return 1e12
     if c == "one":
         return 1
-    return case["capv"] if c == "int" else case["capv"] + 0.5
+    # the cap is documented as "int, float": the same number may reach the routine as a NumPy scalar or 0-d array (teneva.ranks(Y).max(), an
+    # entry of an option array); the spelling is derived from fields every case has, so that old replays keep their meaning
+    v = case["capv"] if c == "int" else case["capv"] + 0.5
+    sel = (case["capv"] * 7 + len(repr(case.get("side", 0))) + int(case.get("seed", case["capv"]))) % 6
+    if c == "int":
+        return [v, np.int64(v), np.int32(v), np.intp(v), np.array(v), v][sel]
+    return [v, np.float64(v), np.float32(v), np.array(v), v, np.float16(v)][sel]
 
 
 def check_ttsvd(ctx, A, Y, e, cap, T, what):
